@@ -74,6 +74,7 @@ def run(rep):
     import c02
     rep.guard(c02.p11, rep, w)    # the handler list must not be a buffer that overflows silently: a try statement deep in a recursion is legal
     rep.guard(x18, rep, w)
+    rep.guard(x19, rep, w)
     import c04_narrow
     rep.guard(c04_narrow.b4, rep, w)    # handler offsets that do not fit 16 bits are reported, not truncated (the handler would point into other code)
     import c15
@@ -732,6 +733,9 @@ def x11(rep, w, rid='X11', prop='C08'):
     reads, _ = field_accesses(w, ef)
     _, uw = field_accesses(w, w.require_fn(VM + 'unwind_stack', prop))
     flags = sorted(x for x in reads & uw if x[0] in ('yarel::vm::Vm', 'yarel::object::ObjFiber') and x[1] not in (roles.resolve(w)['frames'], roles.resolve(w)['handlers'], 'fiber', 'unsafe_fiber', 'ip', 'stack', 'frames', 'exc_handlers', 'error_ip'))
+    # what JumpFinally writes is the parked return (X19 is about that one), not the exception in flight
+    _, parked = field_accesses(w, w.require_fn(VM + 'jump_finally_impl', prop))
+    flags = [x for x in flags if x not in parked]
     if not flags:
         r.ok('no exception-in-flight state outside the frames')
         return
@@ -895,6 +899,62 @@ def x18(rep, w, prop='C08'):
         r.check(ok, 'unwind_stack writes %s from the delivered handler on every path' % fl,
                 'unwind_stack does not set `%s` from the handler it delivers to on every path (stores: %s): a raise site that forgets to set it - the error path of call_native, say - '
                 'runs a finally block and then carries on as if nothing had been thrown' % (fl, stores), u.loc())
+
+
+def x19(rep, w, prop='C08'):
+    """a `return` inside try/finally parks its outcome while the finally block runs. If an exception leaves that block - thrown in it, not
+    only one that was already propagating - and is delivered to a handler that was active before the block was entered, the parked
+    return is void: the function carries on in the catch block, and the next EndFinally must not resume the abandoned return
+    sequence (its JumpFinally finds no handler: `Expected ExcHandler.`). A handler installed inside the block, or in a function called
+    from it, must leave the parked return alone. So the delivering function drops the parked state, and does so under a test."""
+    r = rep.rule('X19', 'delivering an exception to a handler that encloses a running finally block drops the return parked for that block (and only then)', floor=1)
+    u = w.require_fn(VM + 'unwind_stack', prop)
+    jf = w.require_fn(VM + 'jump_finally_impl', prop)
+    ef = w.require_fn(VM + 'end_finally_impl', prop)
+    _, parked_w = field_accesses(w, jf)
+    ef_r, ef_w = field_accesses(w, ef)
+    hf = roles.resolve(w)['handlers']
+    # the parked outcome: fiber / vm state written when the return is parked and consumed (read and rewritten) at EndFinally
+    parked = sorted(x for x in parked_w & ef_r & ef_w if x[0] in ('yarel::vm::Vm', 'yarel::object::ObjFiber') and
+                    x[1] not in (hf, roles.resolve(w)['frames'], 'ip', 'stack', 'fiber', 'unsafe_fiber', 'open_upvalues'))
+    if not parked:
+        r.ok('no parked-return state shared between JumpFinally and EndFinally (kept per handler entry)')
+        return
+    _, uw = field_accesses(w, u)
+    dropped = [x for x in parked if x in uw]
+    if not dropped:
+        r.bad('unwind_stack leaves the parked return', 'unwind_stack delivers an exception without touching %s: an exception thrown inside a finally block that was entered by `return`, '
+              'and caught by an enclosing catch, leaves the return parked; the enclosing statement\'s EndFinally then resumes the abandoned return sequence and its JumpFinally '
+              'panics with "Expected ExcHandler."' % ', '.join('%s.%s' % (a.rsplit('::', 1)[-1], f_) for a, f_ in parked), u.loc())
+        return
+    # ... and only under a test: an unconditional drop would lose the return when the finally block (or a function it calls) catches
+    # an exception of its own
+    droppers = set()
+    for bi, t in u.calls():
+        g = w.fns.get(callee_name(t) or '')
+        if g is not None and g.crate is w.yarel:
+            _, gw = field_accesses(w, g, 0)
+            if any(x in gw for x in parked):
+                droppers.add(bi)
+    for bi in u.normal_blocks():
+        for s_ in u.blocks[bi]['s']:
+            d = s_.get('d') or {}
+            if d.get('p') and isinstance(d['p'][-1], dict) and any(d['p'][-1].get('n') == x[1] for x in parked):
+                droppers.add(bi)
+    pops = [bi for bi, t in u.calls() if (callee_name(t) or '').endswith('ObjFiber::pop_exc_handler')]
+    rets = [b for b in u.return_blocks()]
+    errs = emit_error_returns(u)       # no handler at all: the error leaves the run, nothing is delivered
+    conditional = bool(droppers) and bool(pops) and any(
+        any(rb in u.reachable_blocks(p_, avoid=droppers | errs) for rb in rets) for p_ in pops)
+    r.check(conditional, 'unwind_stack drops %s under a test' % ', '.join(f_ for _, f_ in dropped),
+            'unwind_stack drops the parked return on every delivery: a try/catch inside the finally block (or in a function called from it) that catches an exception of its own '
+            'makes the enclosing function fall through instead of returning', u.loc())
+    # the test compares the handler list with something JumpFinally recorded
+    recorded = sorted(x for x in parked_w if x[0] == 'yarel::object::ObjFiber' and x not in ef_w and x[1] not in (hf, 'stack', 'frames', 'open_upvalues'))
+    u_r, _ = field_accesses(w, u, 0)
+    r.check(any(x in u_r for x in recorded) or not conditional, 'the test reads what JumpFinally recorded (%s)' % ', '.join(f_ for _, f_ in recorded),
+            'the test under which unwind_stack drops the parked return reads nothing that jump_finally_impl recorded when the return was parked (%s): it cannot tell a handler '
+            'that encloses the finally block from one installed inside it' % recorded, u.loc())
 
 
 def emit_error_returns(u):
